@@ -2,7 +2,13 @@ package main
 
 import (
 	"fmt"
+	"go/ast"
+	"go/parser"
+	"go/token"
+	"os"
+	"path/filepath"
 	"reflect"
+	"sort"
 	"strings"
 
 	"github.com/elementsproject/peerswap/swap"
@@ -99,8 +105,110 @@ func genSchema() (string, error) {
 		}
 		fmt.Fprintf(&b, "%q", d)
 	}
+	b.WriteString("]\n\n")
+	// interface-typed fields of the record (they can be persisted only as nil) and every place in non-test code
+	// that assigns one of them (assignment statement or composite-literal key), by go/ast over the whole module
+	names := map[string]bool{}
+	collectIfaceFields(reflect.TypeOf(swap.SwapStateMachine{}), names, map[reflect.Type]bool{})
+	sites, err := ifaceAssignSites(names)
+	if err != nil {
+		return "", err
+	}
+	var ns []string
+	for n := range names {
+		ns = append(ns, n)
+	}
+	sort.Strings(ns)
+	b.WriteString("-- Go names of the interface-typed fields of the record\ndef fsmIfaceFields : List String := [")
+	for i, n := range ns {
+		if i > 0 {
+			b.WriteString(", ")
+		}
+		fmt.Fprintf(&b, "%q", n)
+	}
+	b.WriteString("]\n\n-- (field, file: function) of every assignment to one of them in non-test code\ndef fsmIfaceAssigned : List (String × String) := [")
+	for i, st := range sites {
+		if i > 0 {
+			b.WriteString(", ")
+		}
+		fmt.Fprintf(&b, "(%q, %q)", st[0], st[1])
+	}
 	b.WriteString("]\n\nend PsVerif.Gen\n")
 	return b.String(), nil
+}
+
+func collectIfaceFields(t reflect.Type, out map[string]bool, seen map[reflect.Type]bool) {
+	for t.Kind() == reflect.Ptr {
+		t = t.Elem()
+	}
+	if t.Kind() != reflect.Struct || seen[t] {
+		return
+	}
+	seen[t] = true
+	for i := 0; i < t.NumField(); i++ {
+		f := t.Field(i)
+		if !f.IsExported() || strings.HasPrefix(f.Tag.Get("json"), "-") {
+			continue
+		}
+		ft := f.Type
+		if ft.Kind() == reflect.Interface {
+			out[f.Name] = true
+			continue
+		}
+		for ft.Kind() == reflect.Ptr {
+			ft = ft.Elem()
+		}
+		if ft.Kind() == reflect.Struct && strings.HasSuffix(ft.PkgPath(), "peerswap/swap") {
+			collectIfaceFields(ft, out, seen)
+		}
+	}
+}
+
+func ifaceAssignSites(names map[string]bool) ([][2]string, error) {
+	var sites [][2]string
+	fset := token.NewFileSet()
+	err := filepath.Walk(repoDir(), func(path string, info os.FileInfo, err error) error {
+		if err != nil {
+			return err
+		}
+		if info.IsDir() {
+			if n := info.Name(); n == ".git" || n == "docs" || n == "node_modules" {
+				return filepath.SkipDir
+			}
+			return nil
+		}
+		if !strings.HasSuffix(path, ".go") || strings.HasSuffix(path, "_test.go") || strings.HasPrefix(info.Name(), "verif_") {
+			return nil
+		}
+		f, perr := parser.ParseFile(fset, path, nil, 0)
+		if perr != nil {
+			return nil
+		}
+		rel, _ := filepath.Rel(repoDir(), path)
+		for _, d := range f.Decls {
+			fd, ok := d.(*ast.FuncDecl)
+			if !ok || fd.Body == nil {
+				continue
+			}
+			ast.Inspect(fd.Body, func(n ast.Node) bool {
+				switch x := n.(type) {
+				case *ast.AssignStmt:
+					for _, l := range x.Lhs {
+						if sel, ok := l.(*ast.SelectorExpr); ok && names[sel.Sel.Name] {
+							sites = append(sites, [2]string{sel.Sel.Name, rel + ": " + fd.Name.Name})
+						}
+					}
+				case *ast.KeyValueExpr:
+					if id, ok := x.Key.(*ast.Ident); ok && names[id.Name] {
+						sites = append(sites, [2]string{id.Name, rel + ": " + fd.Name.Name})
+					}
+				}
+				return true
+			})
+		}
+		return nil
+	})
+	return sites, err
 }
 
 func init() { extraFacts["Schema.lean"] = genSchema }
